@@ -269,6 +269,91 @@ def java_literal(text):
     return None
 
 
+def utf16_units(s):
+    out = []
+    for ch in s:
+        c = ord(ch)
+        if c >= 0x10000:
+            c -= 0x10000
+            out += [0xD800 + (c >> 10), 0xDC00 + (c & 0x3FF)]
+        else:
+            out.append(c)
+    return out
+
+
+_SIMPLE = {"b": 8, "s": 0x20, "t": 9, "n": 10, "f": 12, "r": 13, '"': 0x22, "'": 0x27, "\\": 0x5c}
+
+
+def java_string_strict(text):
+    """the UTF-16 units the Java source text `text` denotes when it is exactly one string literal
+    (JLS 3.3 unicode escapes, 3.10.5, 3.10.7), else None"""
+    if len(text) < 2 or text[0] != '"' or text[-1] != '"':
+        return None
+    body = text[1:-1]
+    units, i, run = [], 0, 0
+    while i < len(body):
+        c = body[i]
+        if c == "\\":
+            if run % 2 == 0 and i + 1 < len(body) and body[i + 1] == "u":
+                j = i + 1
+                while j < len(body) and body[j] == "u":
+                    j += 1
+                h = body[j:j + 4]
+                if len(h) < 4 or any(x not in "0123456789abcdefABCDEF" for x in h):
+                    return None
+                units.append((int(h, 16), True)); i = j + 4; run = 0
+                continue
+            run += 1
+        else:
+            run = 0
+        if ord(c) > 0x7f:
+            units += [(u, False) for u in utf16_units(c)]
+        else:
+            units.append((ord(c), False))
+        i += 1
+    us = [u for u, _ in units]
+    out, i = [], 0
+    while i < len(us):
+        c = us[i]
+        if c in (0x22, 0x0a, 0x0d):
+            return None
+        if c == 0x5c:
+            if i + 1 >= len(us):
+                return None
+            e = chr(us[i + 1]) if us[i + 1] < 0x80 else ""
+            if e in _SIMPLE:
+                out.append(_SIMPLE[e]); i += 2
+                continue
+            if e and e in "01234567":
+                j = i + 1
+                lim = 3 if e in "0123" else 2
+                v, n = 0, 0
+                while j < len(us) and n < lim and us[j] < 0x80 and chr(us[j]) in "01234567":
+                    v = v * 8 + (us[j] - 0x30); j += 1; n += 1
+                out.append(v); i = j
+                continue
+            return None
+        out.append(c); i += 1
+    return out
+
+
+KNOWN_STRING_KEY = "string-initialiser-python-unicode-escape"
+
+
+def judge_string(text, want):
+    """None: the printed String initialiser is a Java literal of `want`;
+    KNOWN_STRING_KEY: it is `want` under Python's unicode-escape reading but not valid Java because of an
+    unescaped double quote, a \\xNN or a \\UNNNNNNNN escape (the listed known finding, nothing else);
+    'other': anything else (a violation)"""
+    if java_string_strict(text) == utf16_units(want):
+        return None
+    lit = java_literal(text)
+    body = text[1:-1] if len(text) >= 2 else ""
+    if lit == ("string", want) and (re.search(r"\\x|\\U", body) or '"' in body):
+        return KNOWN_STRING_KEY
+    return "other"
+
+
 RANGES = {"B": (-128, 127), "S": (-32768, 32767), "C": (0, 65535), "I": (-2 ** 31, 2 ** 31 - 1),
           "J": (-2 ** 63, 2 ** 63 - 1)}
 
@@ -443,7 +528,8 @@ def rand_field_init(rng):
     if k == 9:
         return rng.choice(("Ljava/lang/Object;", "Ljava/lang/String;")), (0x1e, None)
     if k == 10:
-        s = rng.choice(("", "hello", "a b", "x" * rng.randrange(1, 20), "tab\there", "unié", "quote'"))
+        s = rng.choice(("", "hello", "a b", "x" * rng.randrange(1, 20), "tab\there", "unié", "quote'", 'say "hi"', "back\\slash\\u0041",
+                        "\u4e2d\u6587", "\U0001f600", "line\nfeed"))
         return "Ljava/lang/String;", (0x17, s)
     if k == 11:
         return "Ljava/lang/Class;", (0x18, rng.choice(("Lq/A;", "I", "[Ljava/lang/String;")))
@@ -676,7 +762,12 @@ def check_dex(ck, dex, drv_reqs, b, data, spec, dexasm, stats, do_source=True, s
                         ck.fail(case, "no initialiser printed", None, exp, None)
                     elif f.type == "Ljava/lang/String;" and exp.startswith("r23:"):
                         stats["printed_strings"] += 1
-                        if java_literal(text) != ("string", dexasm.norm_str(tup[1])):
+                        j = judge_string(text, dexasm.norm_str(tup[1]))
+                        if j == KNOWN_STRING_KEY:
+                            stats["printed_strings_known_finding"] += 1
+                            ck.fail(case, "printed String initialiser is not a Java literal of the string (Python escaping)",
+                                    KNOWN_STRING_KEY, tup[1], text)
+                        elif j is not None:
                             ck.fail(case, "printed String initialiser is another string", None, tup[1], text)
                     else:
                         ok = literal_matches(f.type, exp, text)
@@ -849,6 +940,10 @@ def run_case(ck, dex, cm, dexasm, case, report=True):
         check_dex(ck if report else _Collect(ck), dex, [], b, data, [(st, None, None)], dexasm, _Stats(), shrink=False)
         fs = ck.failures[n0:] if report else _Collect.last
         return (fs[0]["expected"], fs[0]["observed"]) if fs else ("as encoded", "as encoded")
+    if op == "prints":
+        st = "".join(chr(c) for c in case["codepoints"])
+        r = real_print("Ljava/lang/String;", st)
+        return st, r
     if op == "print":
         exp = case.get("expected")
         val = case["value"]
@@ -976,6 +1071,29 @@ def run(ck: Check):
         if not ok:
             ck.fail({"op": "print", "proto": proto, "value": v, "expected": exp},
                     "printed initialiser does not denote the value", None, exp, real[-1])
+    # String initialisers: model = CPython's unicode-escape codec between quotes
+    sreqs, sreal = [], []
+    strs = ["", "a", "hello world", 'say "hi"', "it's", "back\\slash", "\\u0041", "tab\t nl\n cr\r", "\x00\x01\x1f\x7f\x80\xe9\xff",
+            "\u0100\u4e2d\uffff", "\ud800", "\udfff\ud800", "\U00010000\U0001f600\U0010ffff", "\\", '"', "\\\\u"]
+    pools = [(0x20, 0x7f), (0, 0x20), (0x7f, 0x100), (0x100, 0x10000), (0xd800, 0xe000), (0x10000, 0x110000)]
+    for _ in range(300 if not ck.big else 20000):
+        strs.append("".join(chr(rng.randrange(*rng.choice(pools))) for _ in range(rng.randrange(1, 8))))
+    for st in strs:
+        cps = [ord(ch) for ch in st]
+        sreqs.append("prints " + (",".join(map(str, cps)) if cps else "-"))
+        r = real_print("Ljava/lang/String;", st)
+        sreal.append("ok " + hexs(r[3:].encode("ascii", "backslashreplace")) if r.startswith("ok ") else r)
+        if r.startswith("ok "):
+            j = judge_string(r[3:], st)
+            if j == KNOWN_STRING_KEY:
+                ck.fail({"op": "prints", "codepoints": cps}, "printed String initialiser is not a Java literal of the string (Python escaping)",
+                        KNOWN_STRING_KEY, st, r[3:])
+            elif j is not None:
+                ck.fail({"op": "prints", "codepoints": cps}, "printed String initialiser is another string", None, st, r[3:])
+        else:
+            ck.fail({"op": "prints", "codepoints": cps}, "no String initialiser printed", None, st, r)
+    ck.compare("prints", sreqs, sreal, drv.ask(sreqs))
+    ck.cover(evaluations=len(sreqs), distinct=(("prints", r) for r in sreqs), samples=[{"prints": sreqs[3], "real": sreal[3]}])
     # non-finite float / double values (modelled); finite ones are read back by the oracle only
     fl = []
     for proto, k, size, pats in (("F", "f", 4, [0x7f800000, 0xff800000, 0x7fc00000, 0xffc00000, 0x7f800001, 0x7fffffff]),
@@ -1025,13 +1143,13 @@ def run(ck: Check):
                           "evalue stream; for DEX files the resolved items are mapped back to indices through the writer's pools)")
     ck.assumptions.append("Python recursion limit is not modelled (nesting depth of generated values <= 40)")
     ck.assumptions.append("struct.unpack('<f'/'<d') is modelled as the identity on bit patterns; NaNs are compared as 'nan'")
-    ck.partial.append("'the decompiler prints the same value' is PROVED for byte, short, char, int, long, boolean, null and "
-                      "non-finite float/double (print_denotes_*, static_init_print). NOT proved: FINITE float/double "
-                      "initialisers (text comes from Python repr, not modelled in Lean; read back by the Java-literal oracle "
-                      "on the real code only) and String initialisers (Python unicode-escape, not modelled; the oracle checks "
-                      "which string is printed, not that the escaping is valid Java: '\\xe9' and an unescaped '\"' are printed "
-                      "and are not valid Java). type/field/method/enum/array/annotation-valued initialisers are printed with "
-                      "Python str() (a descriptor, a list repr, an object repr): they denote no Java value, nothing is claimed.")
+    ck.partial.append("'the decompiler prints the same value' is PROVED for byte, short, char, int, long, boolean, null, "
+                      "non-finite float/double (print_denotes_*, static_init_print) and for String values made of JavaSafe "
+                      "code points (print_denotes_string_safe). For other strings it is FALSE of the code (known finding "
+                      "string-initialiser-python-unicode-escape, string_initialiser_refuted). NOT proved: FINITE float/double "
+                      "initialisers (text comes from Python repr, not modelled in Lean; read back by the Java-literal oracle on "
+                      "the real code only). type/field/method/enum/array/annotation-valued initialisers are printed with Python "
+                      "str() (a descriptor, a list repr, an object repr): they denote no Java value, nothing is claimed.")
 
 
 def replay(ck: Check, rp):
